@@ -72,6 +72,25 @@ void h_append()
   if(!r) { NV_REACH("append.reject"); }
 }
 
+// -------------------------------------------------------------- append(const uint32* data, size, str): every size
+// reads exactly data[0..size), appends element by element (the single-code-point append is replaced
+// by a counting contract), result == all elements accepted
+usize g_app_calls; bool g_app_all; const uint32* g_ua_data; usize g_ua_size;
+bool uni_append_arr_post(bool ret) { return g_app_calls == g_ua_size && ret == g_app_all; }
+void h_append_arr()
+{
+  NV_STRING_STATICS();
+  NV_INPUT(usize, n);
+  NV_ASSUME(n <= NV_MAXSZ / 4);
+  uint32* data = (uint32*)new char[n * 4 + 4];
+  String s;
+  g_app_calls = 0; g_app_all = true; g_ua_data = data; g_ua_size = n;
+  bool r = Unicode::append(data, n, s);
+  NV_POST("Unicode::append(data, size, str): one append per element, in bounds", uni_append_arr_post(r));
+  NV_REACH("append_arr.return");
+  delete[] (char*)data;
+}
+
 // -------------------------------------------------------------- inverse law, all code points
 void h_inverse()
 {
